@@ -26,8 +26,9 @@ def main(tier, t0):
                                                         "all_instances_are_compliant_mode": True, "keep_less_specific": True}})
     fnt = [f for f in load_findings("C04") if f.get("family") == "nt"]
     fttl = [f for f in load_findings("C04") if f.get("family") == "ttl"]
-    nts = [x for x in nt.skeletons(tier) if x[0].startswith(("nodes/", "tail/", "lit/FF/", "lit/FFF/", "lit/F/", "lit/empty/"))]
-    ttls = [x for x in ttl.skeletons(tier) if x[0].startswith(("lit/F/", "lit/empty/", "lit/FF/", "lit/FFF/", "int/", "base/", "rebind"))]
+    # every literal / node / tail / base skeleton of both readers (C06 / C07 judge the triples; here only "no exception, no non-termination")
+    nts = [x for x in nt.skeletons(tier) if x[0].startswith(("nodes/", "tail/", "lit/"))]
+    ttls = [x for x in ttl.skeletons(tier) if x[0].startswith(("lit/", "int/", "base/", "rebind"))]
     tasks += [("harness.nt", "run_obligation", "nt-noraise/" + n, dict(spec=s, findings=fnt, check_c04_only=True)) for n, s in nts]
     tasks += [("harness.ttl", "run_obligation", "ttl-noraise/" + n, dict(spec=s, findings=fttl, check_c04_only=True)) for n, s in ttls]
     tasks += [("harness.api", "run_obligation", "api/" + n, dict(name=n)) for n in ("profile_graph/string", "profile_graph/file", "shex_graph/sinks")]
